@@ -3,6 +3,7 @@ package props
 import (
 	"bytes"
 	"fmt"
+	"io"
 	"math"
 	"strings"
 	"sync/atomic"
@@ -60,7 +61,7 @@ var hostileComparators = []interface{}{"<", "<=", ">", ">=", "=", "!=", "in", "n
 
 var hostileFnNames = []interface{}{"ToUpper", "toupper", "abs", "sum", "count", "max", "min", "avg", "majority", "foo", ""}
 
-var hostileNames = []string{"i1", "i2", "f1", "b1", "s1", "e1", "e2", "id", "nosuch", "", "'q'", "\"q\"", "$v", "n1", "a b", "ä", "'q\nq'"}
+var hostileNames = []string{"i1", "i2", "f1", "b1", "s1", "e1", "e2", "id", "nosuch", "", "'q'", "\"q\"", "$v", "$", "n1", "a b", "ä", "'q\nq'"}
 
 func pickArg(t *rapid.T, label string) hostile {
 	return hostileArgs[rapid.IntRange(0, len(hostileArgs)-1).Draw(t, label)]
@@ -185,7 +186,39 @@ func genHostileExpr(t *rapid.T, depth int) (interface{}, string) {
 }
 
 func genChainOp(t *rapid.T, healthyPossible bool) chainOp {
-	switch rapid.IntRange(0, 28).Draw(t, "op") {
+	switch rapid.IntRange(0, 29).Draw(t, "op") {
+	case 29:
+		// ToCSV with a Columns list that does not fit the frame: an error return, for frames with and without rows
+		k := rapid.IntRange(0, 4).Draw(t, "csvcolumns")
+		return chainOp{desc: fmt.Sprintf("ToCSV with an invalid Columns list (%d)", k), run: func(qf qframe.QFrame) qframe.QFrame {
+			if qf.Err != nil {
+				return qf
+			}
+			names := qf.ColumnNames()
+			var list []string
+			switch {
+			case k == 0 && len(names) > 0:
+				list = names[:len(names)-1] // too short
+			case k == 1:
+				list = append(append([]string(nil), names...), "never-created-col") // too long
+			case k == 2 && len(names) > 0:
+				list = append([]string(nil), names...)
+				list[0] = "never-created-col" // unknown name
+			case k == 3 && len(names) > 0:
+				list = []string{} // empty but not nil
+			default:
+				return qf
+			}
+			for _, f := range []qframe.QFrame{qf, qf.Slice(0, 0)} {
+				if f.Err != nil {
+					continue
+				}
+				if err := f.ToCSV(io.Discard, csv.Columns(list)); err == nil {
+					panic(fmt.Sprintf("VIOLATION: ToCSV(Columns(%q)) of a frame with the columns %q and %d rows returned no error", list, names, f.Len()))
+				}
+			}
+			return qf
+		}}
 	case 28:
 		// argument values of the right Go type that still are no valid comparison values: NaN for a float column
 		// (documented as an error under every comparator), and []interface{} in-lists whose elements are not all of the
@@ -515,7 +548,7 @@ func genChainOp(t *rapid.T, healthyPossible bool) chainOp {
 		return o
 	case 19:
 		k := rapid.IntRange(0, 8).Draw(t, "shape")
-		bad := rapid.SampledFrom([]string{"", "'q'", "\"q\"", "$v", "'q\nq'", "\"\n\""}).Draw(t, "badname")
+		bad := rapid.SampledFrom([]string{"", "'q'", "\"q\"", "$v", "$", "'q\nq'", "\"\n\""}).Draw(t, "badname")
 		ops := []chainOp{
 			{desc: "illegal destination in Copy " + bad, run: func(qf qframe.QFrame) qframe.QFrame { return qf.Copy(bad, "i1") }},
 			{desc: "illegal destination in Apply " + bad, run: func(qf qframe.QFrame) qframe.QFrame {
